@@ -346,6 +346,9 @@ def current_body(key):
             raise Shape(f"module-level {name} not found in {fname}")
         return ast.unparse(hits[0].value)
     node = find_class(tree, cls) if cls else tree
+    if fn == "*":      # the whole class body (fields of a dataclass, ...)
+        return "\n".join(ast.unparse(n) for n in node.body
+                         if not (isinstance(n, ast.Expr) and isinstance(n.value, ast.Constant) and isinstance(n.value.value, str)))
     return body_text(find_func(node, fn))
 
 
@@ -357,7 +360,7 @@ def body_fact(key, out):
     except Shape:
         got = None
     ok = got is not None and got in expected_bodies().get(key, [])
-    name = fname.split(".")[0] + "_" + (cls.lower() + "_" if cls else "") + fn.lstrip("_=").lower() + "_ok"
+    name = fname.split(".")[0] + "_" + (cls.lower() + "_" if cls else "") + ("class" if fn == "*" else fn.lstrip("_=").lower()) + "_ok"
     name = {"connection_connection_start_ok": "connection_connection_start_ok" if fn == "start" else "connection_connection_inner_start_ok"}.get(name, name)
     if not ok:
         shown = (got or "<missing>").replace("*)", "* )").replace('"', "''")
@@ -733,7 +736,10 @@ CHARSET_BODIES = [
     "connection.py:Connection:text_resultset", "connection.py:Connection:handle_init_db",
     "packets.py::parse_handshake_response_41", "packets.py::parse_com_change_user", "packets.py::parse_com_init_db",
     "packets.py::parse_com_field_list", "packets.py::make_error", "packets.py::make_handshake_v10", "packets.py::make_auth_switch_request",
-    "packets.py::_read_param_value",
+    "packets.py::_read_param_value", "packets.py::parse_com_stmt_execute", "packets.py::_interpolate_params", "packets.py::_read_params",
+    "packets.py::parse_com_query", "packets.py::parse_com_stmt_send_long_data",
+    "connection.py:Connection:handle_stmt_prepare", "connection.py:Connection:handle_stmt_execute", "connection.py:Connection:handle_field_list",
+    "prepared.py:PreparedStatement:*",
 ]
 
 
